@@ -3,7 +3,7 @@
 import sys, re, json
 pid = sys.argv[1]
 txt = open('/verif/notes/%s.md' % pid).read()
-blocks = re.findall(r'```json\s*(.*?)```', txt, re.S)
+blocks = re.findall(r"```(?:json)?\s*(.*?)```", txt, re.S)
 blocks = [b for b in blocks if '"technique"' in b]
 b = blocks[-1].strip()
 if not b.startswith('{'):
